@@ -13,3 +13,8 @@ def run(rep: Report, repo: Repo, tier: str) -> None:
     fsrules.rule_no_delete(rep, repo, "C18-R2")
     pathterms.rule_stdout_branch(rep, repo, "C18-R3")
     pathterms.rule_page_path(rep, repo, "C18-R4")
+    # "inside that directory": the directory the user asked for, i.e. a relative -o resolved against the cwd of the run
+    from .c16 import rule_output_dir_resolution
+    rule_output_dir_resolution(rep, repo, "C18-R5")
+    # "the files of a directory in sorted name order" (stdout mode prints pages in production order)
+    fsrules.rule_no_nondeterminism(rep, repo, "C18-R6")
